@@ -14,10 +14,22 @@ C13  one clf.exchange() per (driver x target kind x host command index k x statu
      nfc.clf.CommunicationError subclass or IOError/OSError.  Finer clauses only where manual and driver
      documentation agree: a transport-level fault (write fails / no or failing read for the ACK / hard read error
      for the response) at any host command of exchange(), sense() or listen() -> IOError only;
-     status 01h of the RF exchange command as initiator -> TimeoutError; chip silent after
+     status 01h of the RF exchange command as initiator -> TimeoutError and every other error code of it ->
+     TransmissionError (never TimeoutError / BrokenLinkError / IOError; InDataExchange: the six bit error code); as
+     target every error code of TgGetInitiatorCommand / TgResponseToInitiator -> TransmissionError, except 0Ah /
+     29h / 31h which the driver documents as the remote side having left (BrokenLinkError or TransmissionError) and 01h
+     (TimeoutError or TransmissionError) - asked for all 256 values because status octets and OS errno values are
+     different number spaces (6Eh = ETIMEDOUT, 05h = EIO, 13h = ENODEV); the mirror image on the host link: a
+     transport exception after the ACK whose errno equals a special-cased status code (1, 10, 41, 49) -> IOError;
+     chip silent after
      the ACK of the RF exchange command -> TimeoutError (exchange() docstring); status 29h (released by the
      initiator; RC-S956 also 31h RF-off) of TgGetInitiatorCommand -> BrokenLinkError; CIU RFOffIRq while a
      FeliCa listen target -> BrokenLinkError.
+     Well formed envelopes with short / misordered content ("payload": frame links: right LCS/DCS around
+     {-, D5, D4, 7F, D5 RC, D5 wrong-RC, RC, RC D5} x {-, 00, 01 xx, 01 xx 00, 00 01}; ACR122U: well formed CCID message whose pseudo
+     APDU response is any string of 0..6 octets built from D5, RC, 90 00, 63 00, 90, 00, arbitrary octets - also the
+     ones that end in the success status word 9000 with nothing or too little in front) at every host command of
+     exchange() and of sense()/listen(): coarse clause (IOError or a documented CommunicationError, nothing else).
      RF status clause, at the commands that hand RF data to / fetch it from the chip (InCommunicateThru,
      InDataExchange, TgGetInitiatorCommand, TgResponseToInitiator; TgGetData/TgSetData are never used by
      exchange()): every status value is sent bare and (quick: a structured subset, thorough: all) followed by the
@@ -53,7 +65,8 @@ ASSUMPTIONS = [
     "vf.ref.crc is a faithful reading of ISO/IEC 14443-3 Annex B (its worked examples are test vectors)",
     "CCID header bytes bSlot/bSeq/bStatus/bError/bChainParameter of an ACR122U answer are not judged (no checksum protects them and the property names framing, identifier, response code and status word only)",
     "a host-link fault changes what the host reads or makes the write fail; the chip still executes the command (not when the write fails)",
-    "a transport exception while the command frame is written or the ACK frame awaited (any errno, ETIMEDOUT included), and a transport exception other than ETIMEDOUT while the response is awaited, is a host-link failure and must be reported as IOError; only errors nfc/clf/transport.py can raise at that point are injected (USB read ETIMEDOUT/EIO/ENODEV, USB write EIO/ENODEV, serial additionally IOError without errno from pyserial)",
+    "a transport exception while the command frame is written or the ACK frame awaited (any errno, ETIMEDOUT included), and a transport exception other than ETIMEDOUT while the response is awaited, is a host-link failure and must be reported as IOError; only errors nfc/clf/transport.py can raise at that point are injected (USB read ETIMEDOUT/EIO/ENODEV, USB write EIO/ENODEV, serial additionally IOError without errno from pyserial), plus - response phase only - IOError with errno 1/10/41/49, which today's transport.py does not raise: they stand for 'a transport exception with some other errno' and are chosen because the numbers coincide with chipset status codes the drivers special-case",
+    "C13 status class clause: the status octet of an RF command and the errno of a transport exception are different number spaces; error code 01h of InCommunicateThru/InDataExchange is the chip's RF time-out, no other code is; no error code of an initiator command means that the field was lost; as target 0Ah/29h/31h are what pn53x.Device.send_rsp_recv_cmd documents as the remote side having left",
     "the CIU appends/verifies CRC_A for InCommunicateThru at 106 kbps Type A exactly when CIU_TxMode.TxCRCEn / CIU_RxMode.RxCRCEn (bit 7) are set, reports a failed check as status 02h, and hands the received octets over unchanged when RxCRCEn is clear",
     "C13 finer clauses: PN53x status 01h and a silent chip after ACK mean time-out; status 29h (RC-S956 also 31h) of TgGetInitiatorCommand and CIU_DivIRq.RFOffIRq mean the remote side left",
     "C13 RF status clause: the status byte of InCommunicateThru, TgGetInitiatorCommand, TgResponseToInitiator and TgSetData is an error code as a whole (00h = success); only InDataExchange and TgGetData carry the NAD (bit 7) and MI (bit 6) flags in front of a six bit error code (PN532 UM 7.1); with an error status the octets behind the status byte are chip buffer content, not data received from the other side",
@@ -88,7 +101,16 @@ RULE_C13 = ("cell = (driver in pn531/pn532/pn533/rcs956/acr122/arygonA/arygonB/p
             "(InCommunicateThru, InDataExchange, TgGetInitiatorCommand, TgResponseToInitiator) all 256 status values "
             "bare + status values followed by the regular response's octets (quick: flag-bit-only 40h/80h/C0h, single "
             "bits, documented error codes, field borders; thorough: all 255): 00h -> exactly the reference data, error "
-            "status -> never data")
+            "status -> never data; status class clause: for each of these 256 values which documented error it becomes "
+            "(initiator: error code 01h -> TimeoutError, any other -> TransmissionError; target: 0Ah/29h/31h -> "
+            "BrokenLinkError or TransmissionError, 01h -> TimeoutError or TransmissionError, any other -> TransmissionError), "
+            "and transport exceptions after the ACK with errno 1/10/41/49 (numerically special-cased status codes) -> IOError; "
+            "well formed envelopes (frame with right checksums / CCID message with right dwLength) with short or misordered "
+            "content - frame links 40 data fields of 0..5 octets, ACR122U every pseudo-APDU response of 0..4 octets over "
+            "the tokens {D5, RC, 9000, 6300, xx} plus head x middle x status-word combinations up to 6 octets (thorough: "
+            "all token strings up to 6) - at every host command of exchange() (quick: first variant of a kind; the full set "
+            "for one kind per driver code path, the others and later occurrences of a command code within one "
+            "sense()/listen() get the contents without status/count octets) and of sense()/listen(): coarse clause")
 RULE_C14 = ("command side: every command code of each chipset table x payload lengths (quick: 0..6, 250..270, max-2..max, "
             "random; thorough: every length) x random contents, frame validated and compared with the payload; response "
             "side: valid responses of many lengths x every single-bit flip, every truncation, extensions, sum-preserving "
@@ -116,7 +138,26 @@ REQUIRED_C13 = (["%s_c13_exchanges" % d for d in DRIVERS] + ["%s_c13_cells" % d 
                 ["%s_c13_error_status_flag_bits_only_checked" % d for d in DRIVERS] +
                 ["%s_c13_status00_data_checked" % d for d in DRIVERS] +
                 ["pn53x_c13_rf_status_sweep_%s" % c for c in ("InCommunicateThru", "InDataExchange", "TgGetInitiatorCommand",
-                                                               "TgResponseToInitiator")])
+                                                               "TgResponseToInitiator")] +
+                # which documented class an error status becomes, all values, both roles; status octets / errnos that
+                # are numerically equal to a value of the other number space
+                ["%s_c13_status_class_checked" % d for d in DRIVERS] +
+                ["%s_c13_status_class_ini_only_transmission_checked" % d for d in DRIVERS] +
+                ["%s_c13_status_class_tgt_only_transmission_checked" % d for d in FRAME_DRIVERS] +
+                ["%s_c13_status_errno_collision_checked" % d for d in DRIVERS] +
+                ["%s_c13_hostlink_errno_collision_checked" % d for d in DRIVERS] +
+                ["%s_c13_hostlink_errno_collision_at_rf_command" % d for d in DRIVERS] +
+                ["pn53x_c13_status_class_sweep_%s" % c for c in ("InCommunicateThru", "InDataExchange", "TgGetInitiatorCommand",
+                                                                  "TgResponseToInitiator")] +
+                # well formed envelopes with short / misordered content
+                ["%s_c13_wellformed_payload_exchange_checked" % d for d in DRIVERS] +
+                ["%s_c13_wellformed_payload_sense_checked" % d for d in DRIVERS] +
+                ["%s_c13_wellformed_payload_listen_checked" % d for d in FRAME_DRIVERS] +
+                ["%s_c13_wellformed_%s_checked" % (d, c) for d in FRAME_DRIVERS for c in ("empty", "tfi_only", "short")] +
+                ["acr122_c13_apdu_%s_%s_checked" % (c, st) for c in ("short_sw9000", "short_sw_error", "short_no_sw",
+                                                                     "misordered_sw9000", "misordered_sw_error",
+                                                                     "misordered_no_sw", "valid_envelope")
+                 for st in ("exchange", "sense")])
 REQUIRED_C14 = (["%s_frames_validated" % d for d in DRIVERS] + ["%s_responses_mutated" % d for d in DRIVERS] +
                 ["%s_t2t_crc_cases" % d for d in DRIVERS] + ["pn53x_crc_cases", "pn53x_crc_bitflips", "pn53x_sim_selftest_frames"] +
                 ["%s_t2t_selres_tt2_nonzero_cells" % d for d in DRIVERS] +
@@ -305,7 +346,7 @@ class Cell(object):
         return ("badtype", type(r).__name__), None, r
 
 
-def actions_for(sim, cmd, link, tier, role, kind, rsp=None):
+def actions_for(sim, cmd, link, tier, role, kind, rsp=None, variant=0):
     """rsp = (octets of the regular response transfer of this host command, of its header) from the reference run"""
     from vf.sim.chipsets import pn53x as S
     acts = []
@@ -324,22 +365,35 @@ def actions_for(sim, cmd, link, tier, role, kind, rsp=None):
     acts += [["fault", f] for f in S.faults_for(link)]
     if rsp is not None:
         acts += S.len_actions(link, rsp)
+        # well formed envelopes with short / misordered content: the envelope does not depend on what the exchange
+        # carries, so the first command variant of a kind is enough in the quick tier
+        if tier != "quick":
+            acts += S.payload_actions(link, cmd, "all" if link == "ccid" else "full")
+        elif variant == 0:
+            acts += S.payload_actions(link, cmd, "full" if kind in PAYLOAD_FULL_KINDS else "core")
     if kind == "l-tt3":
         acts.append(["rfoff"])
     return acts
 
 
-def where_of(action, link=None, rsp=None):
+def where_of(action, link=None, rsp=None, cmd=None):
     if action[0] in ("status", "status+data"):
         return "rf-status"
     if action[0] == "rfoff":
         return "rf-off"
+    if len(action) > 2 and action[1] == "payload":
+        from vf.sim.chipsets import pn53x as S
+        return S.payload_class(link, cmd if cmd is not None else 0, action[2])
     if len(action) > 2:
         from vf.sim.chipsets import pn53x as S
         return S.cut_region(link, action[1], int(action[2]), rsp)
     return action[1]
 
 
+# quick tier: one target kind per driver code path gets the full set of well formed short / misordered contents (Type 2
+# Tag path, plain InCommunicateThru, InDataExchange, CIU octet-wise Type 1 Tag path, Tg* commands, CIU FeliCa listen);
+# the other kinds run the same host commands through the same code and get the envelope-only core set
+PAYLOAD_FULL_KINDS = {"t2t", "t4a", "t1t", "t1t-read8", "l-tt2", "l-tt3"}
 RF_DELIVERY_CMDS = {0x40, 0x42, 0x86, 0x88, 0x8E, 0x90}      # the commands that hand RF data to / fetch it from the chip
 FLAGGED_STATUS_CMDS = {0x40, 0x86}       # InDataExchange / TgGetData: status = NAD (b7) | MI (b6) | error code (b5..0)
 # status values sent with octets behind them in the quick tier: flag bits only (low six bits zero), every single
@@ -347,7 +401,8 @@ FLAGGED_STATUS_CMDS = {0x40, 0x86}       # InDataExchange / TgGetData: status = 
 STATUS_FLAGS_ONLY = [0x40, 0x80, 0xC0]
 STATUS_STRUCTURED = sorted(set(STATUS_FLAGS_ONLY + [1 << i for i in range(8)] + [
     0x01, 0x02, 0x03, 0x04, 0x05, 0x06, 0x07, 0x09, 0x0A, 0x0B, 0x0D, 0x0E, 0x10, 0x12, 0x13, 0x14, 0x23, 0x25, 0x26,
-    0x27, 0x29, 0x2A, 0x2B, 0x2C, 0x2D, 0x2E, 0x31, 0x3F, 0x41, 0x7F, 0x81, 0xBF, 0xC1, 0xFE, 0xFF]))
+    0x27, 0x29, 0x2A, 0x2B, 0x2C, 0x2D, 0x2E, 0x31, 0x3F, 0x41, 0x7F, 0x81, 0xBF, 0xC1, 0xFE, 0xFF,
+    0x6E]))                 # 6Eh = 110 = errno.ETIMEDOUT (05h = EIO and 13h = ENODEV are in the error table anyway)
 
 
 def error_status(cmd, s):
@@ -355,6 +410,54 @@ def error_status(cmd, s):
     InCommunicateThru / TgGetInitiatorCommand / TgResponseToInitiator / TgSetData, the six bit error code for
     InDataExchange / TgGetData whose bits 7 and 6 are the NAD and MI flags"""
     return bool(s & 0x3F) if cmd in FLAGGED_STATUS_CMDS else bool(s & 0xFF)
+
+
+def count_payload(R, drv, link, where, stage, out):
+    """coverage of the well formed envelopes with short / misordered content (judged by the coarse clause: IOError
+    or a documented CommunicationError or - where the envelope is valid - whatever the content means)"""
+    R.count("%s_c13_wellformed_payload_%s_checked" % (drv, stage))
+    R.seen("pn53x_c13_wellformed_payload_outcomes", "%s/%s/%s/%s" % (drv, stage, where, ":".join(str(x) for x in out[:2])))
+    if link == "ccid":
+        cls = where.split(":", 1)[1].replace("-", "_")
+        R.count("%s_c13_apdu_%s_%s_checked" % (drv, cls, stage))
+    else:
+        R.count("%s_c13_%s_checked" % (drv, where.split(":", 1)[1].replace("-", "_")))
+
+
+def comm_class(exc):
+    """which of the documented nfc.clf.CommunicationError kinds an exception is (by isinstance, so that a driver
+    internal subclass such as pn53x.Chipset.Error counts as what it derives from)"""
+    import nfc.clf
+    for cls in (nfc.clf.TimeoutError, nfc.clf.BrokenLinkError, nfc.clf.TransmissionError, nfc.clf.ProtocolError):
+        if isinstance(exc, cls):
+            return cls.__name__
+    return "CommunicationError" if isinstance(exc, nfc.clf.CommunicationError) else type(exc).__name__
+
+
+RELEASED_CODES = (0x0A, 0x29, 0x31)     # pn53x.Device.send_rsp_recv_cmd: "RF field not switched on in time", "released
+#                                         by the initiator", RC-S956 "RF off": reported as BrokenLinkError
+
+
+def expected_status_classes(role, cmd, s):
+    """-> (clause label, set of documented classes) for error status s of RF command cmd, None if not judged.
+    Initiator (InCommunicateThru / InDataExchange): error code 01h is the chip's time-out -> TimeoutError, every other
+    error code -> TransmissionError.  Target (TgGetInitiatorCommand / TgResponseToInitiator): 0Ah / 29h / 31h are
+    documented by the driver as the remote side having left (BrokenLinkError; TransmissionError is not objected to
+    here, the codes and chips where BrokenLinkError is demanded are judged by the older clause below); 01h is
+    not a target side code in the manuals (TimeoutError and TransmissionError both accepted); every other code ->
+    TransmissionError."""
+    code = s & 0x3F if cmd in FLAGGED_STATUS_CMDS else s & 0xFF
+    if code == 0:
+        return None
+    if role == "ini" and cmd in (0x40, 0x42):
+        return ("status01", {"TimeoutError"}) if code == 1 else ("error-status/ini", {"TransmissionError"})
+    if role == "tgt" and cmd in (0x88, 0x90):
+        if code in RELEASED_CODES:
+            return "released-status/tgt", {"BrokenLinkError", "TransmissionError"}
+        if code == 1:
+            return "status01/tgt", {"TimeoutError", "TransmissionError"}
+        return "error-status/tgt", {"TransmissionError"}
+    return None
 
 
 def hostlink_clause(R, drv, link, role, action, cmd, name, tag, got, case, exc, at_rf=False, stage="exchange", kind=None):
@@ -371,6 +474,10 @@ def hostlink_clause(R, drv, link, role, action, cmd, name, tag, got, case, exc, 
     R.seen("pn53x_c13_hostlink_faults", "%s/%s/%s" % (link, phase, action[1]))
     if at_rf:
         R.count("%s_c13_hostlink_%s_at_rf_command" % (drv, phase))
+    if S.errno_collision(action[1]):
+        R.count("%s_c13_hostlink_errno_collision_checked" % drv)
+        if at_rf:
+            R.count("%s_c13_hostlink_errno_collision_at_rf_command" % drv)
     if stage == "exchange" and role == "tgt":
         R.count("%s_c13_hostlink_as_target_checked" % drv)
     if stage != "exchange":
@@ -391,7 +498,7 @@ def judge_c13(R, cell, k, action, cmd, out, exc, follow=False, data=None):
     drv = cell.driver
     name = S.NAMES.get(cmd, "%02X" % cmd) if cmd is not None else "?"
     case = {"family": "pn53x_family", "driver": drv, "kind": cell.kind, "variant": cell.variant, "k": k, "action": action, "follow": follow}
-    where = where_of(action, cell.sim.link, cell.rsplog.get(k)) + ("+next-exchange" if follow else "")
+    where = where_of(action, cell.sim.link, cell.rsplog.get(k), cmd) + ("+next-exchange" if follow else "")
     tag = out[0]
     if tag == "bound":
         R.inconc("%s/%s: host command bound hit at k=%d %r" % (drv, cell.kind, k, action))
@@ -447,13 +554,35 @@ def judge_c13(R, cell, k, action, cmd, out, exc, follow=False, data=None):
                 return True
         else:
             R.count("%s_c13_flagged_success_status_seen" % drv)      # InDataExchange/TgGetData 40h/80h/C0h: MI / NAD
-    if action in (["status", 1], ["status+data", 1]) and cell.role == "ini" and k == last_rf and cmd in (0x40, 0x42):
-        R.count("%s_c13_finer_checked" % drv)
-        if got != "TimeoutError":
-            R.violation("%s/class/status01@%s->%s" % (drv, name, got),
-                        "%s %s: chip status 01h (time-out) of %s surfaced as %s, not nfc.clf.TimeoutError" % (
-                            drv, cell.kind, name, got), case)
-            return True
+    if action[0] in ("status", "status+data") and cmd in RF_DELIVERY_CMDS and tag in ("comm", "ioerror"):
+        # which documented error an error status becomes: chipset status octets and OS errno values are different
+        # number spaces, so this is asked for every value (6Eh = ETIMEDOUT, 05h = EIO, 13h = ENODEV included)
+        exp = expected_status_classes(cell.role, cmd, action[1] & 0xFF)
+        if exp is not None:
+            label, allowed = exp
+            cls = comm_class(exc) if tag == "comm" else "IOError"
+            R.count("%s_c13_finer_checked" % drv)
+            R.count("%s_c13_status_class_checked" % drv)
+            R.count("pn53x_c13_status_class_sweep_%s" % name)
+            R.seen("pn53x_c13_status_classes", "%s/%s/%s->%s" % (drv, name, label, cls))
+            if len(allowed) == 1 and label != "status01":
+                R.count("%s_c13_status_class_%s_only_transmission_checked" % (drv, cell.role))
+            if (action[1] & 0xFF) in S.STATUS_ERRNO_COLLISIONS and label.startswith("error-status"):
+                R.count("%s_c13_status_errno_collision_checked" % drv)
+            if cls not in allowed:
+                if label == "status01":
+                    R.violation("%s/class/status01@%s->%s" % (drv, name, got),
+                                "%s %s: chip status 01h (time-out) of %s surfaced as %s, not nfc.clf.TimeoutError" % (
+                                    drv, cell.kind, name, got), case)
+                else:
+                    R.violation("%s/class/%s@%s->%s" % (drv, label, name, cls),
+                                "%s %s: error status %02Xh of %s (not the time-out code%s) surfaced as %s, documented: %s" % (
+                                    drv, cell.kind, action[1] & 0xFF, name,
+                                    "" if cell.role == "ini" else ", not a code the driver documents as field loss",
+                                    cls, "/".join(sorted(allowed))), case)
+                return True
+    elif action[0] in ("status", "status+data") and tag == "comm":
+        R.seen("pn53x_c13_nonrf_status_classes", "%s/%s->%s" % (drv, name, comm_class(exc)))     # observation only
     if action in (["fault", "ack-silence"], ["fault", "etimedout"]) and k == last_rf and cmd in S.RF_WAIT_CMDS:
         R.count("%s_c13_finer_checked" % drv)
         if got != "TimeoutError":
@@ -561,7 +690,7 @@ def run_cell_c13(R, driver, kind, tier, rng, only=None, variant=0):
         ks = sorted(set(list(range(1, 8)) + [n - 2, n - 1, n] + rng.sample(range(8, n - 2), 3)))
     for k in ks:
         cmd = cmds[k - 1]
-        acts = actions_for(sim, cmd, link, tier, cell.role, kind, cell.rsplog.get(k))
+        acts = actions_for(sim, cmd, link, tier, cell.role, kind, cell.rsplog.get(k), variant)
         if only is not None:
             if k != only[0]:
                 continue
@@ -577,10 +706,12 @@ def run_cell_c13(R, driver, kind, tier, rng, only=None, variant=0):
             if not delivered:
                 R.count("%s_c13_action_not_delivered" % driver)
                 continue
-            where = where_of(action, link, cell.rsplog.get(k))
+            where = where_of(action, link, cell.rsplog.get(k), cmd)
             cls = "%s/%s/%s/%s" % (kind, S.NAMES.get(cmd, cmd), action[0] if action[0].startswith("status") else where, ":".join(str(x) for x in out))
             R.seen("%s_c13_outcomes" % driver, cls)
-            if len(action) > 2 and action[1] == "surplus":
+            if len(action) > 2 and action[1] == "payload":
+                count_payload(R, driver, link, where, "exchange", out)
+            elif len(action) > 2 and action[1] == "surplus":
                 R.count("%s_c13_surplus_delivered" % driver)
                 R.seen("pn53x_c13_surplus_outcomes", "%s/%s/%s" % (S.NAMES.get(cmd, cmd), driver, ":".join(str(x) for x in out[:2])))
             elif len(action) > 2:
@@ -595,6 +726,9 @@ def run_cell_c13(R, driver, kind, tier, rng, only=None, variant=0):
                           "outcome": list(out)})
             # the exchange after the disturbed one (no script): same coarse oracle
             follow_wanted = (only is None and (action[0] == "fault" or tier != "quick")) or (only is not None and only[2])
+            if only is None and tier == "quick" and len(action) > 2 and action[1] == "payload":
+                follow_wanted = False         # quick tier: the state after a rejected response is followed up for the
+                #                               named faults (garbled-all, wrongcode, nostatus, ...) already
             if follow_wanted and not bad:
                 sim.script = {}
                 out3, exc3, _ = cell.exchange({})
@@ -674,6 +808,18 @@ def run_activation_c13(R, driver, kind, tier, rng, only=None):
         acts = list(hard)
         if k in rsplog:
             acts += [["fault", "surplus", m] for m in S.SURPLUS_LENGTHS]
+            # quick tier: the full set where a command code occurs for the first time in this activation, the
+            # envelope-only core set (no status / count octets behind the head) at its later occurrences
+            # (the ACR122U differs from the PN532 in Chipset.command() only, what the contents mean to sense() is
+            # exercised through the frame links: quick tier core / mini set)
+            first = cmd not in cmds[:k - 1]
+            if tier != "quick":
+                level = "full"
+            elif link == "ccid":
+                level = "core" if first else "mini"
+            else:
+                level = "full" if first else "core"
+            acts += S.payload_actions(link, cmd, level)
         if only is not None:
             if k != only[0]:
                 continue
@@ -687,9 +833,11 @@ def run_activation_c13(R, driver, kind, tier, rng, only=None):
                 R.count("%s_c13_action_not_delivered" % driver)
                 continue
             case = {"family": "pn53x_family", "stage": "activation", "driver": driver, "kind": kind, "k": k, "action": action}
-            where = where_of(action, link, rsplog.get(k))
+            where = where_of(action, link, rsplog.get(k), cmd)
             R.seen("%s_c13_activation_outcomes" % driver, "%s/%s/%s/%s" % (kind, name, where, ":".join(str(x) for x in out)))
-            if len(action) > 2:
+            if len(action) > 2 and action[1] == "payload":
+                count_payload(R, driver, link, where, "sense" if role == "ini" else "listen", out)
+            elif len(action) > 2:
                 R.count("%s_c13_surplus_delivered" % driver)
                 R.seen("pn53x_c13_surplus_outcomes", "%s/%s/%s" % (name, driver, ":".join(str(x) for x in out[:2])))
             tag = out[0]
